@@ -213,7 +213,7 @@ def renderItem : Item → List Tok
       (match v.2 with
        | some ty => w "EV" "(" ++ tyToks "EV" ty ++ w "EV" ")"
        | none => []) ++ w "EV" ",") ++
-    w "EV" "} impl" ++ nm "EV" enumName ++ w "EV" "{ pub fn name ( & self ) -> & ' static str { match self {" ++
+    w "EV" "} impl" ++ nm "EV" enumName ++ w "EV" "{ pub fn name ( & self ) -> & ' static str { match * self {" ++
     arms.flatMap (fun a => w "EV" "Self ::" ++ nm "EV" a.1 ++
       (if a.2.1 then w "EV" "( _ )" else []) ++ w "EV" "=>" ++ strLit "EV" a.2.2 ++ w "EV" ",") ++
     w "EV" "} } }"
